@@ -22,8 +22,11 @@ Rendering of the imperative code:
 
 Operator typing on dynamic operands is the FIXED one (D-09e, commit b1ccf31: `add` with a dynamic
 operand is dynamic unless an operand is a string; `not`/`minus` on a dynamic operand are typed).
-Quirks reproduced as they are (DESIGN §6): return types are inferred at block entry in the
-*enclosing* variable scopes (D-09b); `x get e` is never checked against the declared type of `x`.  D-09a is FIXED in the code
+Return types are inferred at block entry in the enclosing scopes, where every name that the function
+(parameters, `make`s and function definitions anywhere in its body) or its defining block (`make`s) binds
+is dynamic (`shadowed_vars` / `shadowed_funcs`, fix D-09b; `Env.shadowRet := false` is the pinned code,
+which looked those names up in the enclosing scopes).
+Quirk reproduced as it is (DESIGN §6): `x get e` is never checked against the declared type of `x`.  D-09a is FIXED in the code
 (`in_loop` is 0 while a function body is checked), and so is D-18: `localsLen` is the span
 `last own id − start + 1` (`spanLen := true`; `false` gives the count of the originally pinned code).
 Core-only.
@@ -110,6 +113,9 @@ structure Env where
   scope : Nat
   /-- `locals_len` is the span of the own ids (D-18 fix) instead of their count -/
   spanLen : Bool
+  /-- return-type inference treats the names that the function or its defining block binds as dynamic
+  (fix D-09b); `false` = the pinned code, which looked them up in the enclosing scopes -/
+  shadowRet : Bool := true
 deriving Repr, Inhabited
 
 /-- The state threaded through the statements of one block. -/
@@ -277,6 +283,51 @@ def inferExpr (env : Env) (cur : Scope) : Expr → Option VType
           | none => (lookupFn env fname).map (·.ret)
       | .member obj field _ _ =>
           match inferExpr env cur obj with
+          | none => none
+          | some rt =>
+              match MemberKind.ofType rt with
+              | none => some .dynamic
+              | some k =>
+                  match memberOf k field with
+                  | some m => some m.ret
+                  | none => some .dynamic
+      | _ => none
+
+/-- `Resolver::{shadowed_vars, shadowed_funcs}`: the names `infer_expr_type` must not look up while a
+function's return type is inferred; both lists are empty at any other time. -/
+structure Shadow where
+  vars : List Bytes := []
+  fns : List Bytes := []
+deriving Repr, Inhabited
+
+/-- `infer_expr_type` while the shadow lists are filled (fix D-09b): a shadowed variable and a call of
+a shadowed function are dynamic; everything else as `inferExpr` (which is this function on empty
+lists, `Lemmas/ResolveTypes.lean: inferExprSh_nil`). -/
+def inferExprSh (sh : Shadow) (env : Env) (cur : Scope) : Expr → Option VType
+  | .num _ _ => some .number
+  | .null _ => some .null
+  | .str _ _ => some .string
+  | .bool _ _ => some .bool
+  | .array _ _ => some .array
+  | .index _ _ _ _ => some .dynamic
+  | .var v _ _ => if sh.vars.contains v then some .dynamic else (lookupVar env cur v).map (·.ty)
+  | .binary op l r _ =>
+      match inferExprSh sh env cur l, inferExprSh sh env cur r with
+      | some a, some b => inferBinary op a b
+      | _, _ => none
+  | .unary op e _ =>
+      match inferExprSh sh env cur e with
+      | some t => inferUnary op t
+      | none => none
+  | .member _ _ _ _ => some .dynamic
+  | .call callee _ _ _ =>
+      match callee with
+      | .var fname _ _ =>
+          match GlobalB.ofName fname with
+          | some g => some g.retType
+          | none => if sh.fns.contains fname then some .dynamic else (lookupFn env fname).map (·.ret)
+      | .member obj field _ _ =>
+          match inferExprSh sh env cur obj with
           | none => none
           | some rt =>
               match MemberKind.ofType rt with
@@ -514,33 +565,68 @@ end
 
 mutual
   /-- `collect_return_types_from_stmt`: nested function bodies are excluded. -/
-  def collectRets (env : Env) (cur : Scope) : Stmt → List VType
-    | .ret (some e) _ _ => [(inferExpr env cur e).getD .dynamic]
+  def collectRets (sh : Shadow) (env : Env) (cur : Scope) : Stmt → List VType
+    | .ret (some e) _ _ => [(inferExprSh sh env cur e).getD .dynamic]
     | .ret none _ _ => [.null]
-    | .ifS _ t e _ _ => collectRetsB env cur t ++ collectRetsO env cur e
-    | .loop _ b _ _ => collectRetsB env cur b
-    | .block b _ _ => collectRetsB env cur b
+    | .ifS _ t e _ _ => collectRetsB sh env cur t ++ collectRetsO sh env cur e
+    | .loop _ b _ _ => collectRetsB sh env cur b
+    | .block b _ _ => collectRetsB sh env cur b
     | _ => []
-  def collectRetsL (env : Env) (cur : Scope) : List Stmt → List VType
+  def collectRetsL (sh : Shadow) (env : Env) (cur : Scope) : List Stmt → List VType
     | [] => []
-    | s :: ss => collectRets env cur s ++ collectRetsL env cur ss
-  def collectRetsB (env : Env) (cur : Scope) : Block → List VType
-    | .mk ss _ => collectRetsL env cur ss
-  def collectRetsO (env : Env) (cur : Scope) : Option Block → List VType
+    | s :: ss => collectRets sh env cur s ++ collectRetsL sh env cur ss
+  def collectRetsB (sh : Shadow) (env : Env) (cur : Scope) : Block → List VType
+    | .mk ss _ => collectRetsL sh env cur ss
+  def collectRetsO (sh : Shadow) (env : Env) (cur : Scope) : Option Block → List VType
     | none => []
-    | some b => collectRetsB env cur b
+    | some b => collectRetsB sh env cur b
 end
 
+mutual
+  /-- `collect_body_bindings`: the names bound anywhere in a function body — by `make`
+  (`fns := false`) or by a function definition (`fns := true`) — nested function bodies excluded.
+  (The code fills both lists in one walk, in another order; they are only searched.) -/
+  def bodyNames (fns : Bool) : Stmt → List Bytes
+    | .assign x _ _ _ _ _ => if fns then [] else [x]
+    | .fnDef name _ _ _ _ _ _ => if fns then [name] else []
+    | .ifS _ t e _ _ => bodyNamesB fns t ++ bodyNamesO fns e
+    | .loop _ b _ _ => bodyNamesB fns b
+    | .block b _ _ => bodyNamesB fns b
+    | _ => []
+  def bodyNamesL (fns : Bool) : List Stmt → List Bytes
+    | [] => []
+    | s :: ss => bodyNames fns s ++ bodyNamesL fns ss
+  def bodyNamesB (fns : Bool) : Block → List Bytes
+    | .mk ss _ => bodyNamesL fns ss
+  def bodyNamesO (fns : Bool) : Option Block → List Bytes
+    | none => []
+    | some b => bodyNamesB fns b
+end
+
+/-- The names a block declares with `make` directly (not in scope yet at block entry). -/
+def ownMakes : List Stmt → List Bytes
+  | [] => []
+  | .assign x _ _ _ _ _ :: rest => x :: ownMakes rest
+  | _ :: rest => ownMakes rest
+
+/-- The shadow lists `infer_function_return_type` fills for a function with parameters `ps` and body
+`body` whose defining block declares `makes` (none in the pinned code). -/
+def shadowOf (env : Env) (makes : List Bytes) (ps : List Param) (body : Block) : Shadow :=
+  if env.shadowRet then
+    { vars := ps.map (·.name) ++ makes ++ bodyNamesB false body, fns := bodyNamesB true body }
+  else {}
+
 /-- `infer_function_return_type`, evaluated where the code evaluates it: at the entry of the
-block that *contains* the definition, whose own variable scope is still empty (D-09b). -/
-def inferRet (env : Env) (body : Block) : VType :=
-  match collectRetsB env [] body with
+block that *contains* the definition, whose own variable scope is still empty. -/
+def inferRet (env : Env) (sh : Shadow) (body : Block) : VType :=
+  match collectRetsB sh env [] body with
   | [] => .null
   | t :: ts => if ts.all (· == t) then t else .dynamic
 
 structure Pre where
   sigs : List FnSig
-  bodies : List Block
+  /-- `pending`: parameters and body of the definitions that got a signature, in order -/
+  bodies : List (List Param × Block)
   ds : List RDiag
   facts : Facts
 
@@ -564,26 +650,27 @@ def predeclare (env : Env) : List Stmt → List FnSig → Facts → Pre
       | none =>
           let sig : FnSig := ⟨name, f.functions.length, ps.length, nsp, .dynamic⟩
           let r := predeclare env rest (sigs ++ [sig]) (pushFunction f name ps.length env.owner env.scope)
-          ⟨r.sigs, body :: r.bodies, d1 ++ paramDiags [] ps ++ r.ds, r.facts⟩
+          ⟨r.sigs, (ps, body) :: r.bodies, d1 ++ paramDiags [] ps ++ r.ds, r.facts⟩
   | _ :: rest, sigs, f => predeclare env rest sigs f
 
-/-- One round of the return-type loop: signatures are updated in place, in definition order. -/
-def retPass (env : Env) : List Block → Nat → List FnSig → Bool → List FnSig × Bool
+/-- One round of the return-type loop: signatures are updated in place, in definition order;
+`makes` are the names the defining block declares. -/
+def retPass (env : Env) (makes : List Bytes) : List (List Param × Block) → Nat → List FnSig → Bool → List FnSig × Bool
   | [], _, sigs, ch => (sigs, ch)
-  | body :: bs, i, sigs, ch =>
-      let rt := inferRet { env with fns := sigs :: env.fns } body
+  | (ps, body) :: bs, i, sigs, ch =>
+      let rt := inferRet { env with fns := sigs :: env.fns } (shadowOf env makes ps body) body
       match sigs[i]? with
       | some g =>
-          if g.ret == rt then retPass env bs (i + 1) sigs ch
-          else retPass env bs (i + 1) (modifyAt sigs i (fun g => { g with ret := rt })) true
-      | none => retPass env bs (i + 1) sigs ch
+          if g.ret == rt then retPass env makes bs (i + 1) sigs ch
+          else retPass env makes bs (i + 1) (modifyAt sigs i (fun g => { g with ret := rt })) true
+      | none => retPass env makes bs (i + 1) sigs ch
 
 /-- At most `pending.len()` rounds, stopping at the first round without a change. -/
-def retIter (env : Env) (bodies : List Block) : Nat → List FnSig → List FnSig
+def retIter (env : Env) (makes : List Bytes) (bodies : List (List Param × Block)) : Nat → List FnSig → List FnSig
   | 0, sigs => sigs
   | n + 1, sigs =>
-      let r := retPass env bodies 0 sigs false
-      if r.2 then retIter env bodies n r.1 else r.1
+      let r := retPass env makes bodies 0 sigs false
+      if r.2 then retIter env makes bodies n r.1 else r.1
 
 /-! ### `check_stmt`, `check_block`, `check_function_body` -/
 
@@ -732,7 +819,7 @@ mutual
         let f2 := if parent.isNone && env.owner == 0 then setRootScope f1 scope else f1
         let env1 := { env with scope := scope }
         let pre := predeclare env1 ss [] f2
-        let sigs := retIter env1 pre.bodies pre.bodies.length pre.sigs
+        let sigs := retIter env1 (ownMakes ss) pre.bodies pre.bodies.length pre.sigs
         let r := checkStmts { env1 with fns := sigs :: env.fns } {} ss pre.facts
         ⟨.mk r.val sp, pre.ds ++ r.ds, r.facts⟩
   def checkOptBlock (env : Env) (parent : Option Nat) : Option Block → Facts → Out (Option Block)
@@ -763,5 +850,11 @@ def resolveWith (spanLen : Bool) (root : Block) : Resolved :=
 /-- `Resolver::resolve` up to (excluding) `emit_analysis_warnings`; `locals_len` is the span of a
 function's own local ids (fix D-18, commit c01db5f). -/
 def resolve (root : Block) : Resolved := resolveWith true root
+
+/-- The resolver as PINNED with respect to D-09b: return types inferred with the plain scopes of the
+enclosing code (a `return x` is typed by a same-named outer `x`). -/
+def resolvePinnedRet (root : Block) : Resolved :=
+  let r := checkBlock { rootEnv true with shadowRet := false } none root rootFacts
+  { root := r.val, diags := r.ds.map RDiag.toDiag, facts := r.facts, rdiags := r.ds }
 
 end NaijaVerif.Resolve
